@@ -444,11 +444,27 @@ def mutation_twin(ctx, n):
             if x < 0.6:
                 time.sleep([0, 0, 0.001, 0.004][int(y * 4)])
         with open_box(kind, prefix='d', fake=fk) as direct, open_box(kind, prefix='a', fake=fk) as wrapped:
+            flavour = ('plain', 'stamped', 'sized', 'plain')[i % 4]
+            if flavour != 'plain':
+                # the wrapped cassette is the service's own flavour: it stamps every new recording (schema version, host) / hands out
+                # recordings of a class that has a length (an empty one is falsy)
+                from vlib.values import sized_recording_class
+                for c_ in (direct.cassette, wrapped.cassette):
+                    def create(category, _orig=c_.create_new_recording):
+                        r_ = _orig(category)
+                        if flavour == 'stamped':
+                            r_.set_data('schema', 2)
+                            r_.add_metadata({'host': 'h1', 'tags_of_the_store': ['x']})
+                        else:
+                            r_.__class__ = sized_recording_class()
+                        return r_
+                    c_.create_new_recording = create
+                ctx.count('mutation_twin_runs_on_a_%s_cassette' % flavour)
             ids_d = drive(direct.cassette, lambda r: (r.random(), r.random()))
-            a = AsyncRecordOnlyTapeCassette(wrapped.cassette, flush_interval=rng.choice([0.0002, 0.002]), timeout_on_close=60)
+            a = AsyncRecordOnlyTapeCassette(wrapped.cassette, flush_interval=0.05 if flavour == 'sized' else rng.choice([0.0002, 0.002]), timeout_on_close=60)
             a.start()
             try:
-                ids_a = drive(a, pause_async)
+                ids_a = drive(a, pause_async if flavour != 'sized' else (lambda r: (r.random(), r.random())))
             except Exception as ex:
                 ctx.violation('a request sequence the wrapped cassette accepts raised %s in the calling thread when sent through the asynchronous wrapper' % type(ex).__name__,
                               {'mutation_twin': True, 'cassette': kind, 'seed': seed, 'error': repr(ex)[:200]})
